@@ -30,6 +30,7 @@ type Opts struct {
 	TagVariety    bool // the full tag spelling catalogue of C09
 	NoIgnoreTag   bool // never put gomacro:"ignore" on a JSON-visible field (C03/C04 domain note)
 	JSONSafe      bool // only shapes whose Go JSON encoding round-trips (no bool/float map keys, no embedded time …)
+	DataIgnore    bool // gomacro-data:"ignore" tags (C15)
 	NoValuerNames bool // no field named Value / Scan (the type receives sql.Valuer / sql.Scanner methods)
 	EnumStress    bool // every enum declaration style of C10
 	UnionStress   bool // near misses, foreign implementers, embedded interfaces, zero-method interfaces (C11)
@@ -135,6 +136,9 @@ func (g *gen) freshName(pkg *Pkg, label string, exported bool) string {
 			continue
 		}
 		if g.usedAnywhere(name, pkg) && g.o.gated("same_name_two_packages") {
+			continue
+		}
+		if g.caseCollision(name, pkg) && g.o.gated("names_differ_only_in_case") {
 			continue
 		}
 		used[name] = true
@@ -404,6 +408,9 @@ func (g *gen) drawFieldName(used map[string]bool, label string) string {
 
 func (g *gen) drawTag(name string, label string) string {
 	t := g.t
+	if g.o.DataIgnore && rapid.IntRange(0, 5).Draw(t, label+"DataIgnore") == 0 {
+		return `gomacro-data:"ignore"`
+	}
 	if !g.o.TagVariety {
 		switch rapid.IntRange(0, 5).Draw(t, label) {
 		case 0:
@@ -495,6 +502,11 @@ func (g *gen) addStruct(pkg *Pkg, file *File, exported bool) *tinfo {
 					}
 					used[e.d.Name] = true
 					f.Embedded, f.Name, f.Type = true, e.d.Name, g.refTo(pkg, e)
+					if g.o.TagVariety && rapid.IntRange(0, 5).Draw(t, "embedTag") == 0 && !g.o.gated("tagged_embedded") {
+						// a tagged embedded struct is NOT flattened by encoding/json: it nests under the tag name
+						f.Tag = fmt.Sprintf(`json:"%s"`, snake(e.d.Name))
+						g.o.class("feature:tagged_embedded_struct")
+					}
 					ti.hasUnion = ti.hasUnion || e.hasUnion
 					d.Fields = append(d.Fields, f)
 					g.o.class("feature:embedded_struct")
@@ -518,6 +530,10 @@ func (g *gen) addStruct(pkg *Pkg, file *File, exported bool) *tinfo {
 		}
 		if f.Name[0] >= 'A' && f.Name[0] <= 'Z' {
 			f.Tag = g.drawTag(f.Name, "tag")
+			if strings.Contains(f.Tag, "gomacro-data") && fti != nil && (fti.cat == "union" || fti.hasUnion) {
+				// a skipped union component would stay nil, which is outside the JSON round trip's domain
+				f.Tag = ""
+			}
 			// two fields of one struct never share a JSON key (encoding/json would drop both)
 			key := JSONKey(f)
 			if usedKeys[key] {
@@ -836,6 +852,15 @@ func (g *gen) usedAnywhere(name string, except *Pkg) bool {
 			if strings.EqualFold(n, name) {
 				return true
 			}
+		}
+	}
+	return false
+}
+
+func (g *gen) caseCollision(name string, pkg *Pkg) bool {
+	for n := range g.names[pkg.Path] {
+		if n != name && strings.EqualFold(n, name) {
+			return true
 		}
 	}
 	return false
